@@ -51,11 +51,30 @@ InitPub(z, k) ==
               ELSE FreshAud(Pick(z, <<"alice", "bob">>)),
       ver |-> Foreign(k), pt |-> IF Flip(z, 50) THEN At(0) ELSE NoTime]
 
+\* a random permutation of a sequence
+RECURSIVE Shuffle(_, _)
+Shuffle(z, s) == IF s = <<>> THEN <<>>
+                 ELSE LET i == RandomElement(1..Len(s))
+                      IN <<s[i]>> \o Shuffle(z, [j \in 1..(Len(s) - 1) |-> IF j < i THEN s[j] ELSE s[j + 1]])
+\* the items of one kind spread over options: all in one, one each, or split in two
+Groups(z, items) ==
+  IF items = <<>> THEN <<>>
+  ELSE LET how == Pick(z, <<"one", "each", "split">>)
+           i == RandomElement(1..Len(items))
+       IN IF how = "one" \/ (how = "split" /\ i = Len(items)) THEN <<items>>
+          ELSE IF how = "each" THEN [j \in 1..Len(items) |-> <<items[j]>>]
+          ELSE <<SubSeq(items, 1, i), SubSeq(items, i + 1, Len(items))>>
+
 Prog(k) ==
   LET keep == <<Flip(k, 70), Flip(k, 70), Flip(k, 70)>>
       idx == SelectSeq(<<1, 2, 3>>, LAMBDA j : keep[j])
+      gs == Groups(k, SelectSeq([j \in 1..Len(idx) |-> InitPub(k, idx[j])], LAMBDA x : TRUE))
+      none == [kind |-> "clock", pubs |-> <<>>, via |-> "model"]
+      \* the initial publications spread over several options and the clock option, in a random order
+      opts == Shuffle(k, [j \in 1..Len(gs) |-> [none EXCEPT !.kind = "pubs", !.pubs = gs[j], !.via = Pick(k, <<"model", "model", "resource">>)]]
+                         \o <<none>>)
   IN [model |-> "publication", n |-> k,
-      cfg |-> [init |-> [j \in 1..Len(idx) |-> InitPub(k, idx[j])]],
+      cfg |-> [opts |-> opts, init |-> ConfPubs(opts)],
       ops |-> [j \in 1..R(10..MaxOps) |-> Step(k)]]
 
 GenInit == c \in { Prog(k) : k \in 1..NCases }
